@@ -78,6 +78,16 @@ def generate(r, tier):
     units = gen.units_of(world)
     profile = {"p_falsy": 0.6, "pause_density": 0.7, "p_nested": 0.3, "p_self": 0.5, "max_depth": 2, "max_fanout": 2, "p_fault": 0.0}
     scn = {"property": ID, "engine": engine, "world": world, "probes": make_probes(world)}
+    if engine in ("loop", "coro") and r.random() < 0.2:
+        # two checked async calls in flight in ONE context, ending in any order (tasks given the same Context object;
+        # hand-driven coroutines closed first-in-first-out)
+        aunits = [u for u in units if u["async"]]
+        if aunits:
+            scn["mode"] = "pair"
+            pp = dict(profile, pause_density=1.0, p_nested=0.1)
+            scn["faulted"] = [gen.gen_ticket(r, "pa", aunits, pp), gen.gen_ticket(r, "pb", aunits, pp)]
+            scn["pair"] = {"cancel": r.choice([None, None, "pa", "pb"]), "t": r.choice([0.5, 1.5, 2.5]), "order": [r.randint(0, 1) for _ in range(12)], "close": r.choice(["fifo", "lifo", "none"])}
+            return scn
     if r.random() < 0.7:
         scn["mode"] = "sweep"
         scn["base"] = gen.gen_ticket(r, "b", units, profile)
@@ -392,6 +402,117 @@ def judge(run, pristine, scn, plan):
     return violations
 
 
+def _run_pair(scn, probes):
+    """Two async tickets in flight in one shared context; then the probes in that context."""
+    engine = scn["engine"]
+    world = scn["world"]
+    run = core.Run(world)
+    common.setup_objects(run, world)
+    ctx = contextvars.Context()
+    ta, tb = scn["faulted"]
+    pr = scn.get("pair") or {}
+    if engine == "loop":
+
+        async def one(td):
+            run.enter_actor("main")
+            await run.acall(td)
+
+        async def main():
+            loop = asyncio.get_running_loop()
+            t1 = loop.create_task(one(ta), name="pa", context=ctx)
+            t2 = loop.create_task(one(tb), name="pb", context=ctx)
+            tasks = {"pa": t1, "pb": t2}
+            if pr.get("cancel"):
+
+                async def canceller():
+                    await asyncio.sleep(pr.get("t", 0.5))
+                    v = tasks[pr["cancel"]]
+                    if not v.done():
+                        run.faults_fired["cancel_ext"] = run.faults_fired.get("cancel_ext", 0) + 1
+                        v.cancel()
+
+                t3 = loop.create_task(canceller(), name="canceller", context=contextvars.Context())
+                await asyncio.gather(t1, t2, t3, return_exceptions=True)
+            else:
+                await asyncio.gather(t1, t2, return_exceptions=True)
+
+            async def run_probes():
+                run.enter_actor("main")
+                run.ev("probes", None, None, None)
+                run.final_marker = run.marker()
+                for td in probes:
+                    if run.world.is_async(td):
+                        await run.acall(td)
+                    else:
+                        run.call(td)
+
+            await loop.create_task(run_probes(), name="probes", context=ctx)
+
+        simloop.run_in_loop(main, contextvars.Context())
+    else:
+        run.sleep = corodriver.sleep
+
+        def go():
+            run.enter_actor("main")
+            cos = [run.acall(ta), run.acall(tb)]
+            alive = [True, True]
+            order = list(pr.get("order") or [])
+            k = 0
+            steps = 0
+            while any(alive) and steps < 200:
+                steps += 1
+                i = order[k % len(order)] if order else 0
+                k += 1
+                if not alive[i]:
+                    i = 1 - i
+                try:
+                    cos[i].send(None)
+                except StopIteration:
+                    alive[i] = False
+                if steps == 6 and pr.get("close") in ("fifo", "lifo"):
+                    # abandon whatever is still suspended, first-in-first-out or last-in-first-out
+                    seq = [0, 1] if pr["close"] == "fifo" else [1, 0]
+                    for j in seq:
+                        if alive[j]:
+                            run.faults_fired["close"] = run.faults_fired.get("close", 0) + 1
+                            cos[j].close()
+                            alive[j] = False
+            run.ev("probes", None, None, None)
+            run.final_marker = run.marker()
+            for td in probes:
+                if run.world.is_async(td):
+                    corodriver.drive(run.acall(td))
+                else:
+                    run.call(td)
+
+        ctx.run(go)
+    return run
+
+
+def execute_pair(scn):
+    engine = scn["engine"]
+    probes = scn.get("probes") or []
+    pristine = _pristine(engine, scn["world"], probes)
+    live = [p for p in probes if pristine.get(p["id"]) != "ABORT"]
+    try:
+        run = _run_pair(scn, live)
+    except core.Abort as a:
+        return {"violations": [{"rule": "C11.R1", "classifier": "%s:pair:cap-%s" % (engine, a), "detail": "cap hit"}], "digest": None, "stats": {}, "fired": []}
+    violations = []
+    for td in live:
+        want = pristine.get(td["id"])
+        got = run.outcomes.get(td["id"] + "#0")
+        gv = got["verdict"] if got else None
+        if gv != want:
+            violations.append({"rule": "C11.R1", "classifier": "%s:pair:%s->%s" % (engine, want[0] if want else "absent", gv[0] if gv else "absent"), "detail": {"probe": td["id"], "pristine": want, "after_pair": gv, "pair": scn.get("pair")}})
+    fm = getattr(run, "final_marker", None)
+    if run.marker_ok and fm not in (None, ()):
+        violations.append({"rule": "C11.R2", "classifier": "%s:pair:marks-left-after-both-calls-ended" % engine, "detail": {"left": fm, "pair": scn.get("pair")}})
+    stats = {"events": len(run.log), "faults": dict(run.faults_fired), "suspensions": run.suspensions, "probes": {"two_calls_in_one_context": 1}}
+    fired = [("pair", "await", "interleaved-in-one-context", engine)]
+    return {"violations": violations, "digest": run.digest(), "stats": stats, "fired": fired, "engine": engine}
+
+
 def execute_single(scn, pristine=None):
     engine = scn["engine"]
     world = scn["world"]
@@ -576,6 +697,11 @@ def execute(scn):
             "digest": "%015x" % common.h64(digests),
             "engine": scn["engine"],
         }
+    if scn.get("mode") == "pair":
+        res = execute_pair(scn)
+        res["nontrivial"] = {common.h64(f) for f in res.get("fired") or []}
+        res["evaluations"] = 1
+        return res
     res = execute_single(scn)
     scn.pop("_baseline", None)
     res["nontrivial"] = {common.h64(f) for f in res.get("fired") or []}
